@@ -831,11 +831,80 @@ func (e *Exec) havocLoop(st *State, fr *Frame, li *loopInfo, phis []*ssa.Phi, mo
 		st.now = nn
 	}
 	if len(mod.events) > 0 {
-		st.trace = append(st.trace, Event{MayLoop: mod.events})
+		st.trace = append(st.trace, Event{MayLoop: mod.events, Proven: e.provenTracePreds(fr, li)})
 	}
 	if len(mod.deep) > 0 {
 		st.trace = append(st.trace, Event{MayLoop: mod.deep, Deep: true})
 	}
+}
+
+// provenTracePreds collects the loop invariants of the form all(E, P) whose P is
+// stable (reads the heap only under old(...)).
+func (e *Exec) provenTracePreds(fr *Frame, li *loopInfo) map[string][]string {
+	out := map[string][]string{}
+	var conj func(x *SExpr)
+	conj = func(x *SExpr) {
+		if x == nil {
+			return
+		}
+		if x.Op == "bin" && x.Name == "&&" {
+			conj(x.Args[0])
+			conj(x.Args[1])
+			return
+		}
+		if x.Op == "call" && len(x.Args) == 3 && x.Args[0].Op == "id" && x.Args[0].Name == "all" && stableSpecExpr(x.Args[2], false) {
+			n := patName(x.Args[1])
+			out[n] = append(out[n], x.Args[2].String())
+		}
+	}
+	for _, cl := range e.loopClauses(fr, li) {
+		conj(cl.Expr)
+	}
+	return out
+}
+
+// stableSpecExpr: the expression reads memory only inside old(...).
+func stableSpecExpr(x *SExpr, underOld bool) bool {
+	if x == nil {
+		return true
+	}
+	switch x.Op {
+	case "old":
+		return true
+	case "id":
+		// event arguments ($n) and package-level constants are stable; a local
+		// variable or a parameter must be written old(x)
+		if !underOld && !(strings.HasPrefix(x.Name, "$") || (x.Name != "" && x.Name[0] >= 'A' && x.Name[0] <= 'Z') || x.Name == "_") {
+			return false
+		}
+		return true
+	case "sel", "index", "slice":
+		if !underOld {
+			return false
+		}
+	case "call":
+		if x.Args[0].Op == "id" {
+			switch x.Args[0].Name {
+			case "ite", "min", "max", "len", "strings.HasPrefix", "strings.HasSuffix", "strings.Contains", "substr", "typeid":
+			default:
+				if !underOld {
+					return false // spec functions and builtins may read the heap
+				}
+			}
+		}
+		for _, a := range x.Args[1:] {
+			if !stableSpecExpr(a, underOld) {
+				return false
+			}
+		}
+		return true
+	}
+	for _, a := range x.Args {
+		if !stableSpecExpr(a, underOld) {
+			return false
+		}
+	}
+	return true
 }
 
 // discoverLoop symbolically runs the loop body once (no obligations) to find
